@@ -89,7 +89,7 @@ def check_property(prop, tier, args):
         print("engine error: zero obligations registered for %s (vacuous check)" % prop)
         return core.EXIT_UNDECIDED
 
-    harness_timeout = 300 if tier == "quick" else 900
+    harness_timeout = 600 if tier == "quick" else 1200
     per = []
     undecided = []
     failed = []
@@ -136,6 +136,21 @@ def check_property(prop, tier, args):
                 failed.append((o, r))
         else:
             undecided.append((o, r.status))
+
+    # ---- thorough tier: every SAT-backed obligation is re-decided by a second solver (kissat);
+    # a disagreement between solvers is a tool problem -> undecided
+    if tier == "thorough" and kani_obs and not os.environ.get("VERIF_NO_CROSSCHECK"):
+        second = [o for o in kani_obs if getattr(o, "solver", "cadical") == "cadical"
+                  and kani_results[o.name].status == "success"]
+        if second:
+            res2, info2 = kani_runner.run_harnesses(second, harness_timeout, args.jobs, extra=["--solver", "kissat"])
+            kinfo.setdefault("invocations", []).extend(info2.get("invocations", []))
+            byname = {e["name"]: e for e in per}
+            for o in second:
+                r2 = res2[o.name]
+                byname[o.name]["cross_check"] = {"solver": "kissat", "status": r2.status, "seconds": r2.seconds}
+                if r2.status == "failed":
+                    undecided.append((o, "solver disagreement: cadical proves it, kissat refutes it"))
 
     # ---- Verus
     vinfo = {}
